@@ -231,7 +231,7 @@ Proof.
            (mk_frame default_ns (compile_block ex_block) None None []).
     split; [|split; [cbn [app]; rewrite app_nil_r|]; reflexivity].
     split; [unfold Good; split; [reflexivity|cbn; auto 10]|]. split; [reflexivity|]. split.
-    + split; [|reflexivity]. cbn. constructor; [|constructor]. split; [intros k; reflexivity|split; reflexivity].
+    + split; [|reflexivity]. cbn. constructor; [|constructor]. split; [intros k; reflexivity|split; [reflexivity|split; reflexivity]].
     + split; [reflexivity|]. exists []. split; reflexivity.
   - eexists. eapply PBCons; [eapply PSLocal; [discriminate|eapply PNum]|].
     eapply PBCons; [eapply PSAssign; [discriminate|]|].
@@ -320,7 +320,7 @@ Proof.
   cbv zeta. split; [|repeat split].
   split; [|split; [reflexivity|exists []; split; reflexivity]].
   split; [unfold Good; split; [reflexivity|cbn; auto 10]|]. split; [reflexivity|]. split.
-  - split; [|reflexivity]. cbn. constructor; [|constructor]. split; [intros k; reflexivity|split; reflexivity].
+  - split; [|reflexivity]. cbn. constructor; [|constructor]. split; [intros k; reflexivity|split; [reflexivity|split; reflexivity]].
   - split; [cbn; lia|reflexivity].
 Qed.
 
@@ -566,7 +566,7 @@ Proof.
   cbv zeta. split; [|repeat split].
   split; [|split; [reflexivity|exists []; split; reflexivity]].
   split; [unfold Good; split; [reflexivity|cbn; auto 10]|]. split; [reflexivity|]. split.
-  - split; [|reflexivity]. cbn. constructor; [|constructor]. split; [intros k; reflexivity|split; reflexivity].
+  - split; [|reflexivity]. cbn. constructor; [|constructor]. split; [intros k; reflexivity|split; [reflexivity|split; reflexivity]].
   - split; [cbn; lia|reflexivity].
 Qed.
 
@@ -754,6 +754,6 @@ Proof.
   cbv zeta. split; [|repeat split].
   split; [|split; [reflexivity|exists []; split; reflexivity]].
   split; [unfold Good; split; [reflexivity|cbn; auto 10]|]. split; [reflexivity|]. split.
-  - split; [|reflexivity]. cbn. constructor; [|constructor]. split; [intros k; reflexivity|split; reflexivity].
+  - split; [|reflexivity]. cbn. constructor; [|constructor]. split; [intros k; reflexivity|split; [reflexivity|split; reflexivity]].
   - split; [cbn; lia|reflexivity].
 Qed.
